@@ -55,6 +55,60 @@ Theorem c17_refuses_missing : forall nobs oq fq ps,
   (exists q, In q oq /\ ~ In q fq) -> expand nobs oq fq ps = Refused.
 Proof. exact expand_refuses_missing. Qed.
 
+(* ---- public-call outcomes (totality): every input gets exactly one of Ok / Refused / Crashed ---- *)
+
+(* both input paths (PauliList / list[Pauli]) of the restriction agree on every in-range request *)
+Theorem c17_restrict_paths : forall aslist n qs ps, (forall q, In q qs -> q < n) ->
+  restrict_seq aslist n qs ps = Ok (map (restrict1 qs) ps).
+Proof. exact restrict_seq_ok. Qed.
+
+(* outside the property's quantifier (recorded, not demanded): an index >= num_qubits is an
+   IndexError, except on the list path with no observable at all *)
+Theorem c17_restrict_out_of_range : forall aslist n qs ps, (exists q, In q qs /\ n <= q) ->
+  (aslist = false \/ ps <> [] -> restrict_seq aslist n qs ps = Crashed) /\
+  restrict_seq true n qs [] = Ok [].
+Proof. intros; split; [now apply restrict_seq_crash|reflexivity]. Qed.
+
+(* decompose_observables as a public call never refuses; it answers (with the dict of c17_decompose)
+   whenever there are at most num_qubits labels, and an out-of-range index inside it IS reachable:
+   exactly when there are more labels than qubits (IndexError). *)
+Theorem c17_decompose_call_total : forall aslist n labels ps, length labels <= n ->
+  decompose_call aslist n labels ps = Ok (decompose_observables labels ps).
+Proof. exact decompose_call_ok. Qed.
+
+Theorem c17_decompose_call_crash : forall aslist n labels ps, n < length labels ->
+  (aslist = false \/ ps <> [] -> decompose_call aslist n labels ps = Crashed) /\
+  decompose_call true n labels [] = Ok (decompose_observables labels []) /\
+  decompose_call aslist n labels ps <> Refused.
+Proof.
+  intros; split; [now apply decompose_call_crash|].
+  split; [apply decompose_call_empty_list|apply decompose_call_never_refused].
+Qed.
+
+(* expand_observables: answered iff the counts agree and every original qubit is in the final circuit
+   (no other hypothesis), never any other exception, and otherwise refused *)
+Theorem c17_expand_outcome : forall nobs oq fq ps,
+  ((exists out, expand nobs oq fq ps = Ok out) <-> nobs = length oq /\ incl oq fq) /\
+  (expand nobs oq fq ps = Refused <-> ~ (nobs = length oq /\ incl oq fq)) /\
+  expand nobs oq fq ps <> Crashed.
+Proof.
+  intros. split; [apply expand_ok_iff|]. split; [|apply expand_never_crashes].
+  rewrite expand_refused_iff, <- expand_refusal_none. reflexivity.
+Qed.
+
+(* which documented ValueError: the count message (with both numbers) takes precedence; otherwise
+   the message names the FIRST original qubit that is missing *)
+Theorem c17_refusal_reason : forall nobs oq fq,
+  (forall ps, expand nobs oq fq ps = Refused <-> expand_refusal nobs oq fq <> None) /\
+  (forall a b, expand_refusal nobs oq fq = Some (RCount a b) ->
+     nobs <> length oq /\ a = nobs /\ b = length oq) /\
+  (forall i, expand_refusal nobs oq fq = Some (RMissing i) ->
+     nobs = length oq /\ i < length oq /\ ~ In (nth i oq 0) fq /\ forall j, j < i -> In (nth j oq 0) fq).
+Proof.
+  intros. split; [intros; apply expand_refused_iff|].
+  split; [apply expand_refusal_count|apply expand_refusal_missing].
+Qed.
+
 (* non-vacuity: interleaved fresh qubits, phases, a 3-label partition *)
 Example c17_ex_expand :
   expand 3 [10; 11; 12] [20; 12; 21; 10; 11] [mkP 3 [1; 2; 3]] = Ok [mkP 3 [0; 3; 0; 1; 2]].
@@ -65,6 +119,24 @@ Example c17_ex_decompose :
   = [(7, [0; 2], [mkP 0 [1; 3]]); (5, [1], [mkP 0 [2]]); (9, [3], [mkP 0 [0]])].
 Proof. reflexivity. Qed.
 
+Example c17_ex_zero_qubits :
+  expand 0 [] [20; 21; 22] [mkP 1 []; mkP 3 []] = Ok [mkP 1 [0; 0; 0]; mkP 3 [0; 0; 0]] /\
+  restrict_seq false 0 [] [mkP 2 []] = Ok [mkP 0 []] /\
+  decompose_call false 0 [] [mkP 2 []] = Ok [].
+Proof. repeat split. Qed.
+
+Example c17_ex_refusals :
+  expand_refusal 1 [10; 11] [10; 11] = Some (RCount 1 2) /\
+  expand_refusal 3 [10; 11; 12] [12; 10] = Some (RMissing 1) /\
+  expand_refusal 2 [10; 11] [11; 30; 10] = None.
+Proof. repeat split. Qed.
+
+Example c17_ex_decompose_crash :
+  decompose_call false 2 [7; 5; 7] [mkP 0 [1; 2]] = Crashed /\
+  decompose_call true 2 [7; 5; 7] [] = Ok [(7, [0; 2], []); (5, [1], [])] /\
+  decompose_call false 3 [7; 5] [mkP 1 [1; 2; 3]] = Ok [(7, [0], [mkP 0 [1]]); (5, [1], [mkP 0 [2]])].
+Proof. repeat split. Qed.
+
 Print Assumptions c17_restrict.
 Print Assumptions c17_decompose.
 Print Assumptions c17_members.
@@ -72,6 +144,12 @@ Print Assumptions c17_recombine.
 Print Assumptions c17_expand.
 Print Assumptions c17_refuses_count.
 Print Assumptions c17_refuses_missing.
+Print Assumptions c17_restrict_paths.
+Print Assumptions c17_restrict_out_of_range.
+Print Assumptions c17_decompose_call_total.
+Print Assumptions c17_decompose_call_crash.
+Print Assumptions c17_expand_outcome.
+Print Assumptions c17_refusal_reason.
 
 (* tie to the source: expand_observables has exactly the two refusal sites modelled above *)
 From CKT Require Import Extracted.Facts.
@@ -81,3 +159,24 @@ Definition sites_of (f : string) : nat :=
 Theorem c17_facts : sites_of "wire_cutting_transforms:expand_observables" = 2.
 Proof. reflexivity. Qed.
 Print Assumptions c17_facts.
+
+(* tie to the source, statement by statement: the lines the model mirrors have exactly this text
+   (tools/facts_c17.py; fail-closed).  In particular: the restriction builds its result from the z/x
+   columns only (no phase argument); the count guard is `!=` on num_qubits; the handler catches
+   CircuitError; the result width is final_circuit.num_qubits; the phase vector is copied. *)
+Theorem c17_source_facts : c17_source_shape =
+  [ "isinstance(global_observables, PauliList)";
+    "PauliList.from_symplectic(o.z[:, qubits], o.x[:, qubits])";
+    "[observable[qubits,] for observable in global_observables]";
+    "(i, label) in enumerate(partition_labels)";
+    "qubits_by_subsystem[label].append(i)";
+    "{label: observables_restricted_to_subsystem(qubits, observables) for label, qubits in qubits_by_subsystem.items()}";
+    "observables.num_qubits != original_circuit.num_qubits";
+    "(i, qubit) in enumerate(original_circuit.qubits)";
+    "idx = final_circuit.find_bit(qubit)[0]";
+    "CircuitError";
+    "dims = (len(observables), final_circuit.num_qubits)";
+    "z[:, mapping] = observables.z; x[:, mapping] = observables.x";
+    "PauliList.from_symplectic(z, x, observables.phase.copy())" ]%string.
+Proof. reflexivity. Qed.
+Print Assumptions c17_source_facts.
